@@ -94,6 +94,18 @@ Theorem C05_movers_follow_the_protocol :
 Proof. exact HandoffSrc.src_channel_movers_locked. Qed.
 Print Assumptions C05_movers_follow_the_protocol.
 
+(* .. and nobody else moves messages: of EVERY function of package nsqd that calls a pop /
+   push / put primitive (regenerated list), each one that pops and pushes follows the protocol *)
+Theorem C05_every_pop_and_push_follows_the_protocol :
+  forallb (fun e => negb (HandoffSrc.pops_of (snd e) && HandoffSrc.pushes_of (snd e))
+                    || HandoffSrc.channel_mover (HandoffSrc.shape_named (fst e))) CoreShape.core_touches = true.
+Proof. exact HandoffSrc.src_every_pop_and_push_is_a_protocol_mover. Qed.
+Print Assumptions C05_every_pop_and_push_follows_the_protocol.
+
+Theorem C05_who_touches_messages : map fst CoreShape.core_touches = HandoffSrc.expected_touchers.
+Proof. exact HandoffSrc.src_who_touches_messages. Qed.
+Print Assumptions C05_who_touches_messages.
+
 (* known finding K3, as a theorem: the consumer pump's hand-off (receive from the queue, then
    StartInFlightTimeout) is outside the protocol in the current source, and a mover outside the
    protocol loses its message under this schedule *)
